@@ -57,7 +57,9 @@ Print M.
 """
 
 
-COMMENT_CHARS = ["\t", " ", " ", "a", "tail", "of", "=", ";", "|", "\"", "'", "/", "*", "#", "\\", "x1", "{", "}", "<", "@left", "$ID", "~", "!"]
+COMMENT_CHARS = ["\t", " ", " ", "a", "tail", "of", "=", ";", "|", "\"", "'", "/", "*", "#", "\\", "x1", "{", "}", "<", "@left", "$ID", "~", "!",
+                 # a star followed by every kind of character (the state "just saw a star" has its own transitions)
+                 "*)", "*(", "**)", "*a", "*9", "* ", "*\t", "*\"", "*=", "*|", "*;", "*.", "*,", "*-", "*_", "*]", "*}", "*>", "*@", "*$", "*~", "*\\", "and/or"]
 
 
 def random_comment(rng):
